@@ -554,6 +554,8 @@ def handleEy (st : St) (args : List String) : St × String :=
       match st.eys.find? (·.1 = id) with
       | some (_, g) =>
         let rows := Ey.runRows g lexs
+        -- certificate of the completeness theorem (c05_earley_rows_complete / c05_earley_accept_iff)
+        if !Ey.rowsClosed g lexs rows then (st, "rows-not-closed") else
         (st, "ok " ++ ";".intercalate (rows.map showRow) ++ " acc=" ++ showBool (Ey.accepting g rows))
       | none => (st, "bad-op")
     | _, _ => (st, "bad-op")
